@@ -209,6 +209,9 @@ def _ntok(t):
         return t[1]
     if isinstance(t, (list, tuple)) and t and t[0] == 'vuint1':
         return ('vuint', t[1])
+    if isinstance(t, (list, tuple)) and t and t[0] == 'infx':
+        # x is replaced by inf: what is left of the menu value is its y
+        return ('infx', gen.value_recipe('pixpos', t[1])['y'])
     return tuple(t) if isinstance(t, list) else t
 
 
@@ -1395,7 +1398,9 @@ class Machine:
             mm = MRegion(cls, toks, MDict('meta'), MDict('visual'))
             made.append((self.add_slot('region', o, mm), o, mm, params))
         (i1, o1, m1, p1), (i2, o2, m2, _) = made
-        step = rng.pick([10.0, 90.0, -30.0]) * u.deg
+        # (values that are no menu value and no value of the in-place edits:
+        # the model identifies an edited field by a token of its own)
+        step = (rng.pick([7.25, 11.5, -13.75]) + 0.0625 * self.nmut) * u.deg
         o1.angle += step
         self.nmut += 1
         m1.tok['angle'] = ['mut', 0, self.nmut]
